@@ -14,7 +14,7 @@ import time
 from hypothesis import strategies as st
 
 from . import project
-from .runner import HarnessError
+from .runner import HarnessError, SubjectFailure
 
 PY = sys.executable or "/venv/bin/python"
 
@@ -48,10 +48,10 @@ class Pool:
                 return
             except OSError:
                 if self.proc.poll() is not None:
-                    raise HarnessError("worker pool process exited at start-up")
+                    raise SubjectFailure("worker pool process exited at start-up")
                 time.sleep(0.05)
         self.stop()
-        raise HarnessError("worker pool did not start listening")
+        raise SubjectFailure("worker pool did not start listening")
 
     def stop(self):
         try:
@@ -106,7 +106,7 @@ def real_case(draw, max_tasks=6):
     cancels = draw(st.lists(st.tuples(st.integers(0, n - 1), st.sampled_from([0, 50, 200, 400])), max_size=2))
     if draw(st.booleans()):
         # a long-running victim with a grand-child, cancelled while it certainly runs (when a core is free)
-        tasks.append({"deps": [], "rc": 0, "sleep_ms": 2500, "out_bytes": 0, "grandchild": draw(st.booleans()),
+        tasks.append({"deps": [], "rc": 0, "sleep_ms": 6000, "out_bytes": 0, "grandchild": draw(st.booleans()),
                       "orphan": draw(st.sampled_from([False, False, True]))})
         tasks[0], tasks[-1] = tasks[-1], tasks[0]
         for t in tasks:
@@ -318,7 +318,8 @@ def run_real(case):
             for i in sorted(cancelled):
                 n = names[i]
                 if n in start and n in end and i in cancel_ns:
-                    if start[n] < cancel_ns[i] - 150_000_000 and end[n] > cancel_ns[i] + 1_200_000_000:
+                    # generous margin: the pool handles the cancel request some time after `gwf cancel` returned
+                    if start[n] < cancel_ns[i] - 150_000_000 and end[n] > cancel_ns[i] + 3_000_000_000:
                         v("C17", "cancel-ignored",
                           f"{n} was running when `gwf cancel {n}` returned, yet it ran on to its end "
                           f"{(end[n] - cancel_ns[i]) / 1e9:.1f}s later; cancel said: {cancel_out.get(i, '')[-160:]!r}")
